@@ -74,7 +74,11 @@ def minimise(mod, case, sig, budget=200):
     improved = True
     while improved and budget > 0:
         improved = False
-        cands = list(mod.shrink(cur))[:40]
+        try:
+            cands = list(mod.shrink(cur) or [])[:40]
+        except Exception:
+            # a shrinker that cannot read a case must never cost the violation: the case is reported as it is
+            break
         if not cands:
             break
         impl = core.run_lines(core.harness_bin(), [c["line"] for c in cands], timeout=300)
